@@ -3,6 +3,7 @@ package main
 import (
 	"flag"
 	"fmt"
+	"golang.org/x/tools/go/ssa"
 	"os"
 	"sort"
 	"strings"
@@ -70,6 +71,15 @@ func main() {
 			if strings.Contains(k, os.Args[3]) && strings.HasPrefix(k, os.Args[2]) {
 				for _, l := range FindLoops(fn) {
 					fmt.Printf("%s loop %d: head block %d at %s (%d blocks)\n", shortPkg(k), l.Ord, l.Head.Index, prog.Fset.Position(loopPos(l)), len(l.Blocks))
+				}
+				x := NewExec(prog, NewContractDB(), fn, nil, "")
+				for _, blk := range fn.Blocks {
+					for _, in := range blk.Instrs {
+						if _, ok := in.(ssa.CallInstruction); ok {
+							cn := x.callNameOf(fn, in)
+							fmt.Printf("%s call %s#%d at %s\n", shortPkg(k), cn.name, cn.ord, prog.Fset.Position(in.Pos()))
+						}
+					}
 				}
 			}
 		}
